@@ -13,6 +13,12 @@ def check(tier, seed):
                  # assumption of the model: the legality filter the search relies on (WasLegalMove after DoMove, root moves from
                  # GenerateLegalMoves) is the rules' legality - checked against the extracted specification
                  pos_stream("assumption_legality_filter", ["legality-post", "legality-pre", "legal-move-list"], npos_quick=150, npos_thorough=1500),
+                 # assumption of the model (hash_ok): a hash move handed to the move generator belongs to the position; the
+                 # search does not validate it, it relies on the key telling positions apart - in particular the same placement
+                 # with and without an en-passant right or a castling right (C04's key-separation monitor, run here as well)
+                 dict(name="assumption_key_separates_positions", kind="monitor", shards=lambda t: 4 if t == "quick" else 8,
+                      args=lambda t, s, sh, path: ["pos-monitor", 1500 if t == "quick" else 20000, s * 1000 + 940 + sh, 1],
+                      violation_kinds=["different-positions-same-key", "same-position-different-key"]),
                  dict(name='search_monitor', kind="monitor", shards=lambda t: 4 if t == "quick" else 16,
                       args=lambda t, s, sh, path: ['c05-monitor', 40 if t == "quick" else 600, s * 1000 + sh])])
 
